@@ -107,7 +107,7 @@ func checkC07(c *run.Ctx) {
 	const budget = 10000
 	runCase := func(phase string, i int, r *rand.Rand, cycles bool) {
 		defer jr.done(run.CaseID(phase, i))
-		o := gen.GraphOpts{Cycles: cycles, StringKeys: i%3 == 0, NoRepeatedMerge: i%3 == 0, Big: i%5 == 0, MaxAnchors: []int{12, 12, 4, 30}[i%4], QuotedMergeKey: i%2 == 1}
+		o := gen.GraphOpts{Cycles: cycles, StringKeys: i%3 == 0, NoRepeatedMerge: i%3 == 0, Big: mix(i, 1, 5) == 0, MaxAnchors: []int{12, 12, 4, 30}[mix(i, 2, 4)], QuotedMergeKey: mix(i, 3, 2) == 1}
 		g := gen.AnchorGraph(r, o)
 		id := run.CaseID(phase, i)
 		text, err := doc.ToYAML(g.Root, doc.YAMLOpts{Rng: r, Flow: []float64{0, 0.2, 0.6}[r.IntN(3)], Anchors: true})
